@@ -72,7 +72,7 @@ fn dispatch(dir: &str, max: usize) {
         let outcome = altrios_verif::panics::guard(std::panic::AssertUnwindSafe(|| run_dispatch(&links, &sims, fx.nets.clone(), false, false)));
         let outcome = match outcome {
             Ok(r) => r,
-            Err(p) if altrios_verif::panics::is_debug_assert_site(&p) => {
+            Err(p) if altrios_verif::panics::is_debug_assert_site(&p) && p.message.contains("was placed past the back of train") => {
                 dbg_trips += 1;
                 continue;
             }
@@ -142,7 +142,7 @@ fn regress(dir: &str) {
         let outcome = altrios_verif::panics::guard(std::panic::AssertUnwindSafe(|| run_dispatch(&links, &sims, fx.nets.clone(), false, false)));
         set_dispatch_observer(None);
         let verdict: Result<(), String> = match outcome {
-            Err(p) if altrios_verif::panics::is_debug_assert_site(&p) => {
+            Err(p) if altrios_verif::panics::is_debug_assert_site(&p) && p.message.contains("was placed past the back of train") => {
                 dbg_trips += 1;
                 Ok(())
             }
